@@ -59,7 +59,8 @@ for tag in sorted(os.listdir(S)):
     for l in m['checked_with']['last_run']:
         if l.startswith('VIOLATION'):
             mm=re.search(r'obligation=(\S+)',l)
-            first=mm.group(1) if mm else ''
+            ms=re.search(r'bounded-stand-in=(\S+)',l)
+            first=mm.group(1) if mm else ('bounded stand-in '+ms.group(1) if ms else '')
             break
     if m['status']=='obsolete':
         caught='(obsolete on the current tree)'
